@@ -174,6 +174,7 @@ func genInput(r *rng.R, mode string) Input {
 	if r.Chance(1, 8) {
 		inp.LayersName = r.Pick([]string{"l", "layer-dirs", "sub/layers"})
 	}
+	inp.BaseLink = r.Chance(1, 8)
 	g.dirs = inp.Dirs
 	// layers: a family of names that are prefixes of one another, plus strangers
 	fam := nameFamilies[r.Intn(len(nameFamilies))]
